@@ -28,7 +28,7 @@ class C02(Prop):
     thorough_budget = 30000
     quick_deadline_s = 100
     thorough_deadline_s = 800
-    all_branches = ["o:ok", "o:fail-ros", "py:ok", "py:fail", "d:keyword", "d:compare", "d:math", "forced"]
+    all_branches = ["o:ok", "o:fail-ros", "py:ok", "py:fail", "pyl:ok", "pyl:fail", "d:keyword", "d:compare", "d:math", "forced"]
     assumptions = [
         "Python's semantics of operators, calls and truthiness is the environment: tracer objects script it for the "
         "orchestration check, the real interpreter (restricted eval over the same allow-listed names) supplies it for "
@@ -76,9 +76,41 @@ class C02(Prop):
                         break
         return {"lines": lines, "note": "random"}
 
+    def _history_case(self, rng, depth):
+        """history dependence: the same text (containing the bare names true / false) through the pathways in several
+        orders, twice, on the same and on fresh engines; every result is judged against Python"""
+        lines = [mito.tables_line(self.facts, mito.TN)]
+        if rng.random() < 0.5:
+            if rng.random() < 0.5:
+                src = rng.choice(mito.TRUEFALSE_TRACER)
+            else:
+                src = None
+                for _try in range(20):
+                    c = mito.gen_tracer(rng, depth, "truth", True, True)
+                    if "true" in c or "false" in c:
+                        src = c
+                        break
+                src = src or f"({mito.gen_tracer(rng, depth, 'truth', True, True)}) and true"
+            lines += mito.history_block(rng, self.facts, src, silent=True, ros=(1000, 1))
+            lines += [mito.pyev_line(src), mito.pyevl_line(src)]
+        else:
+            if rng.random() < 0.5:
+                src = rng.choice(mito.TRUEFALSE_CONCRETE)
+            else:
+                src = None
+                for _try in range(30):
+                    c = mito.gen_concrete(rng, rng.choice([1, 2, 3]), self.fn_names, self.const_names)
+                    if ("true" in c or "false" in c) and mito.cheap(c):
+                        src = c
+                        break
+                src = src or "true + 1"
+            lines += mito.history_block(rng, self.facts, src, concrete=True, silent=True, ros=(1000, 1))
+        return {"lines": lines, "note": "history"}
+
     def generate(self, rng, tier, n):
-        for _ in range(n):
-            yield self._case(rng, rng.choice([1, 2, 2, 3] if tier == "quick" else [2, 3, 4, 5]))
+        for i in range(n):
+            d = rng.choice([1, 2, 2, 3] if tier == "quick" else [2, 3, 4, 5])
+            yield self._history_case(rng, min(d, 3)) if i % 4 == 1 else self._case(rng, d)
 
     def exhaustive(self, tier):
         import random
@@ -100,6 +132,27 @@ class C02(Prop):
             lines.append(mito.met_line("math", src))
             lines.append(mito.pyev_line(src))
         spaces.append({"name": "every operator / comparison pair / call shape over tracers (walker vs eval)", "cases": cases})
+        # history dependence on fixed texts with bare true / false
+        import random as _r
+        hr = _r.Random("C02-hist")
+        cases = []
+        for src in mito.TRUEFALSE_TRACER:
+            lines = [mito.tables_line(self.facts, mito.TN)]
+            seed = hr.randrange(1, 10 ** 6)
+            for order in mito.ORDERS:
+                lines.append(mito.cfg_line(self.facts, seed, silent=True, ros=(1000, 1)))
+                for _rep in range(2):
+                    lines += [mito.met_line(pw, src) for pw in order]
+            lines += [mito.pyev_line(src), mito.pyevl_line(src)]
+            cases.append({"lines": lines, "note": "history (tracers)"})
+        for src in mito.TRUEFALSE_CONCRETE:
+            lines = H()
+            for order in mito.ORDERS:
+                for _rep in range(2):
+                    lines += [mito.cmet_line(pw, src) for pw in order]
+            cases.append({"lines": lines, "note": "history (concrete)"})
+        spaces.append({"name": "texts with bare true/false x pathway orders (logic-math-logic, math-logic-math, ...) "
+                               "x repeated x same/fresh engine", "cases": cases})
         # every allow-listed name with concrete arguments; every operator on concrete operand pairs
         cases, lines = [], None
         srcs = []
@@ -131,13 +184,26 @@ class C02(Prop):
         return spaces
 
     # --- implementation ----------------------------------------------------------------------------------------
+    _fresh = False
+
     def run_impl(self, case):
+        # once a history case has violated, history cases (and their shrink candidates) run in a fresh child process, so
+        # that module-level state left behind by EARLIER cases cannot stand in for lines the shrinker removes
+        if self._fresh and "history" in case.get("note", ""):
+            w = mito.Worker(str(REPO))
+            try:
+                return w.run(case["lines"], profile=False)
+            finally:
+                w.close()
         return self.worker.run(case["lines"], profile=False)
 
     # --- oracle --------------------------------------------------------------------------------------------------
     def oracle(self, case, obs, extra):
         out = []
         L = case["lines"]
+        # Python's own evaluation of each text in this case (plain namespace / logic namespace), wherever it stands
+        py = {l.split(" ")[1]: o for l, o in zip(L, obs) if l.startswith("pyev ")}
+        pyl = {l.split(" ")[1]: o for l, o in zip(L, obs) if l.startswith("pyevl ")}
         for i, (line, o, x) in enumerate(zip(L, obs, extra)):
             t = line.split(" ")
             if o.startswith(("hang", "crash", "raised", "worker-error")):
@@ -153,18 +219,23 @@ class C02(Prop):
                                              f"success {x.get('value')}", i))
                     elif x.get("value") != x.get("ref"):
                         out.append(Violation("value_equals_python", str(x.get("ref"))[:120], str(x.get("value"))[:120], i))
-            elif t[0] == "met" and t[1] == "math" and i + 1 < len(L) and L[i + 1].startswith("pyev ") \
-                    and L[i + 1].split(" ")[1] == t[4]:
-                py = obs[i + 1]
+            elif t[0] == "met":
                 eng = o.split(" ")
+                path = eng[1]
+                ref = pyl.get(t[4]) if path == "logic" else py.get(t[4]) if path == "math" else None
+                if ref is None:
+                    continue
                 if eng[0].startswith("ok:"):
-                    if not py.startswith("ok:"):
-                        out.append(Violation("python_raises_engine_fails", "failure (Python raises)", o[:120], i))
-                    elif py.split(" ")[0] != eng[0]:
-                        out.append(Violation("value_equals_python", py.split(" ")[0], eng[0], i))
-                    elif dedupe_truthy(py.split(" ")[1]) != dedupe_truthy(eng[3]):
+                    if not ref.startswith("ok:"):
+                        out.append(Violation("python_raises_engine_fails", f"failure on the {path} pathway (Python raises)",
+                                             o[:120], i))
+                    elif ref.split(" ")[0] != eng[0]:
+                        out.append(Violation("value_equals_python", ref.split(" ")[0], eng[0] + f" ({path})", i))
+                    elif path == "math" and dedupe_truthy(ref.split(" ")[1]) != dedupe_truthy(eng[3]):
                         out.append(Violation("nothing_dropped", "same primitive applications in the same order: "
-                                             + py.split(" ")[1][:200], eng[3][:200], i))
+                                             + ref.split(" ")[1][:200], eng[3][:200], i))
+        if out and "history" in case.get("note", ""):
+            self._fresh = True
         return out
 
     def normalise(self, line):
@@ -172,7 +243,7 @@ class C02(Prop):
         context (`x if (a and b) else y` tests `a` once, the language-reference semantics of `pyEval` — and the
         walker — test the resulting operand again).  Immediately repeated `tr:n` entries are collapsed."""
         t = line.split(" ")
-        if len(t) == 2 and t[1].startswith("{"):
+        if len(t) == 2 and t[1].startswith("{"):      # pyev / pyevl observations
             return t[0] + " " + dedupe_truthy(t[1])
         return line
 
